@@ -40,14 +40,18 @@ fn manifest_der(entries: &[(Vec<u8>, Vec<u8>)], this: &str, next: &str, explicit
         parts.push(der::ctx(0, true, &der::uint(0)));
     }
     parts.push(der::uint(0x1234));
-    parts.push(der::gentime(this));
-    parts.push(der::gentime(next));
+    parts.push(time_tlv(this));
+    parts.push(time_tlv(next));
     parts.push(der::oid(&[2, 16, 840, 1, 101, 3, 4, 2, 1]));
     parts.push(der::seq(&files));
     der::seq(&parts)
 }
 
-const TIMES: [&str; 3] = ["20240101000000Z", "20240101000001Z", "20491231235959Z"];
+/// five instants in chronological order; 13 characters = UTCTime, 15 = GeneralizedTime
+const TIMES: [&str; 5] = ["500601000000Z", "20240101000000Z", "240101000001Z", "491231235959Z", "20500101000000Z"];
+fn time_tlv(t: &str) -> Vec<u8> {
+    if t.len() == 13 { der::utctime(t) } else { der::gentime(t) }
+}
 const BASES: [&str; 3] = ["rsync://h/m/d/", "rsync://h/m/d", "rsync://Host.example/module/"];
 
 fn check_decoded(c: &Value, m: &ManifestContent, entries: &[(Vec<u8>, Vec<u8>)], data: &[u8]) -> Result<(), (String, String)> {
@@ -90,7 +94,7 @@ pub fn replay(args: &[String]) {
                 for variant in 0..2 {
                     let name = render(&c["name"], variant);
                     let entries = vec![(name.clone(), sha256(data))];
-                    let bytes = manifest_der(&entries, TIMES[0], TIMES[1], variant == 1);
+                    let bytes = manifest_der(&entries, TIMES[1], TIMES[2], variant == 1);
                     let case = json!({"case": c, "variant": variant, "name": String::from_utf8_lossy(&name)});
                     match guarded(|| Mode::Der.decode(bytes.as_ref(), ManifestContent::take_from)) {
                         Err(m) => s.violation("decode:panic", m, case),
@@ -171,7 +175,7 @@ pub fn drive(args: &[String]) {
             if rng.chance(1, 6) { h.truncate(rng.below(33) as usize); }
             entries.push((name, h));
         }
-        let (ti, ni) = (rng.below(3) as usize, rng.below(3) as usize);
+        let (ti, ni) = (rng.below(5) as usize, rng.below(5) as usize);
         let bytes = manifest_der(&entries, TIMES[ti], TIMES[ni], rng.chance(1, 2));
         let names: Vec<Value> = entries.iter().map(|(n, _)| Value::Array(n.iter().map(|b| {
             let c = *b as char;
